@@ -180,10 +180,19 @@ func runC15(c *Ctx) {
 				continue
 			}
 			if _, ok := constString(cc.Args[2]); !ok {
+				// a computed FORMAT string is interpreted by fmt: only values that cannot contain '%' may be used
+				// (base64 output, the AUTH line built from the mechanism name and base64)
 				for _, v := range []ssa.Value{cc.Args[2]} {
 					nSinks++
-					ok, why := c.sanitised(site, v)
-					R.Ob(c.siteKey(site, "command format <- "+describe(v)), c.P.InstrPos(site), ok, why)
+					okFmt := true
+					why := ""
+					for _, l := range leafSources(stripConv(v)) {
+						if !(strings.HasPrefix(l, "makeslice") || strings.HasPrefix(l, "builtin:string(makeslice") || strings.HasPrefix(l, "strings.TrimSpace(fmt.Sprintf(\"AUTH %s %s\"")) {
+							okFmt = false
+							why = "the rendered text " + l + " is passed as the printf FORMAT of the command: a '%' in an address or option value is interpreted by fmt and corrupts the line"
+						}
+					}
+					R.Ob(c.siteKey(site, "command format <- "+describe(v)), c.P.InstrPos(site), okFmt, why)
 				}
 			}
 			for _, v := range varargValues(cc.Args[3]) {
